@@ -2,7 +2,6 @@ package ons
 
 import (
 	"encoding/json"
-	"math/big"
 
 	"github.com/tendermint/tendermint/libs/kv"
 
@@ -194,11 +193,15 @@ func runPurchaseDomain(ctx *action.Context, tx action.RawTx) (bool, action.Respo
 			return false, action.Response{Log: err.Error()}
 		}
 
-		extend = big.NewInt(0).Div(remain.Amount.BigInt(), opt.PerBlockFees.BigInt()).Int64()
+		// the name is on sale and not expired: the extension is added to its expiry height
+		extend, err = blocksFor(remain.Amount.BigInt(), opt.PerBlockFees.BigInt(), domain.ExpireHeight)
+		if err != nil {
+			return false, action.Response{Log: err.Error()}
+		}
 
 	} else {
 		// calculate expiry from the buying price
-		extend, err = calculateExpiry(&buy.Offering.Value, &opt.BaseDomainPrice, &opt.PerBlockFees)
+		extend, err = calculateExpiry(&buy.Offering.Value, &opt.BaseDomainPrice, &opt.PerBlockFees, ctx.State.Version())
 		if err != nil {
 			return false, action.Response{
 				Log: err.Error(),
